@@ -157,6 +157,29 @@ func c09Match(implRuns []vImplRun, implListings [][]Term, ref c09RefOut) bool {
 //   inst 2: 1 nested-in-retract op, then 1 simple op.        inst 3: 3 simple ops (thorough).
 //   inst 4: nested-in-call then nested-in-retract (thorough). inst 5: simple, nested-in-retract, simple (thorough).
 //   inst 6: one enumeration (call or retract) with two nested operations per solution.
+// ---- text cases: clauses that contain variables shared with the goal that asserts them ----
+//
+// The logical update view is about which clauses a goal sees; these cases add the other half of "the database is
+// what the updates made it": a stored clause is a snapshot of the term at assert time, so binding the caller's
+// variable afterwards changes neither what later calls, clause/2 nor retract/1 see.
+var c09Cases = []vCase{
+	{name: "nonground-then-bind-retract", prog: ":- dynamic(q/2).", query: "assertz(q(X, k0)), assertz(q(k1, k2)), X = k3, retract(q(k1, T)), findall(A-B, q(A, B), L)."},
+	{name: "nonground-twice-retract-two", prog: ":- dynamic(p/1).", query: "assertz(p(X)), assertz(p(X)), once(retract(p(k0))), once(retract(p(k1))), findall(A, p(A), L)."},
+	{name: "nonground-then-bind-call", prog: ":- dynamic(p/1).", query: "assertz(p(X)), X = k0, p(Y)."},
+	{name: "nonground-then-bind-clause", prog: ":- dynamic(p/2).", query: "assertz(p(k0, X)), X = k1, clause(p(k0, Y), true)."},
+	{name: "nonground-asserta-retract-binds-caller", prog: ":- dynamic(b/2).", query: "asserta(b(X, [X|_])), retract(b(k0, _))."},
+	{name: "nonground-rule-then-bind", prog: ":- dynamic(r/1).", query: "assertz((r(X) :- X = k0 ; X = Y)), Y = k1, r(Z)."},
+	{name: "nonground-retract-then-reassert", prog: ":- dynamic(p/1). p(k0). p(k1).", query: "retract(p(X)), assertz(p(f(X, Y))), Y = k2, fail ; findall(A, p(A), L)."},
+	{name: "retract-var-pattern-first", prog: ":- dynamic(p/2). p(k0, k1). p(k1, k0). p(k0, k0).", query: "retract(p(X, X)), findall(A-B, p(A, B), L)."},
+	{name: "assert-in-open-call-nonground", prog: ":- dynamic(p/1). p(k0). p(k1).", query: "p(X), assertz(p(g(X, Z))), Z = k2, fail ; findall(A, p(A), L)."},
+	{name: "retract-clause-with-body-var", prog: ":- dynamic(p/1). p(X) :- X = k0. p(k1).", query: "retract((p(A) :- B)), findall(C, p(C), L)."},
+}
+
+func VH_C09_text(vm *VM, inst int) {
+	vRunCase(vm, c09Cases[inst], "", false)
+	reach("c09/text", true)
+}
+
 func VH_C09(vm *VM, inst int) {
 	var trace []Term
 	vRegisterEmit(vm, &trace)
